@@ -6,6 +6,7 @@ import oracle as O
 import gen as G
 import enc as E
 import hutil as H
+import rng as R
 
 RULE = ('(state, observable) cases: tableaux of every rank and sign pattern (N<=6); observable lists biased to +-group elements, '
         'logical operators, anticommuting operators; polynomials with unreduced products carrying phases i/-i; pairs of states '
@@ -23,6 +24,8 @@ def run(ctx):
     import impl
     U, pc = impl.U, impl.pc
     rng = ctx.rng
+    R.warm_up()
+    _histories(ctx, impl)
     for _ in range(ctx.budget(400, 5000)):
         n = rng.choice([1, 2, 2, 3, 3, 4, 5, 6])
         rows, r = G.rand_tableau(rng, n)
@@ -145,3 +148,84 @@ def run(ctx):
             tot += pr
         if okk and abs(tot - 1) > 1e-9:
             ctx.fail('StabilizerState.get_prob', 'probabilities sum to %s' % tot, dict(rows=rows))
+
+
+def _histories(ctx, impl):
+    """expectations, overlaps and bit-string probabilities of a state that earlier legal calls have changed (post-selection,
+    measurement, rotation, transformation): against the dense density matrix followed through the same calls"""
+    rng = ctx.rng
+    pc = impl.pc
+    for _ in range(ctx.budget(60, 700)):
+        n = rng.choice([1, 2, 2, 3, 3])
+        rows, r = G.rand_tableau(rng, n, 0)
+        st = impl.state(rows, 0)
+        rho = O.dense_state(rows[0:n], n)
+        d = 2 ** n
+        hist = []
+        ok = True
+        for step in range(rng.randrange(1, 4)):
+            kind = rng.choice(['postselect', 'postselect', 'measure', 'rotate'])
+            try:
+                if kind == 'postselect':
+                    Pk = G.rand_herm(rng, n, nonid=True)
+                    res = rng.randrange(2)
+                    Pm = (np.eye(d) + (-1) ** res * O.dense(Pk)) / 2
+                    pr = float(np.real(np.trace(Pm @ rho)))
+                    if pr < 1e-9:
+                        continue
+                    got = float(st.postselect(impl.pauli(Pk), res))
+                    hist.append(('postselect', Pk, res))
+                    if abs(got - pr) > 1e-9:
+                        ctx.fail('StabilizerState.postselect', 'probability %s differs from Tr(P rho) = %s' % (got, pr), dict(rows=rows, history=hist)); ok = False; break
+                    rho = Pm @ rho @ Pm / pr
+                elif kind == 'measure':
+                    Pk = G.rand_herm(rng, n, nonid=True)
+                    R.seed_numba(rng.randrange(1 << 30))
+                    out, _lp = st.measure(impl.plist([Pk], n))
+                    hist.append(('measure', Pk, int(out[0])))
+                    Pm = (np.eye(d) + (-1) ** int(out[0]) * O.dense(Pk)) / 2
+                    pr = float(np.real(np.trace(Pm @ rho)))
+                    if pr < 1e-9:
+                        ctx.fail('StabilizerState.measure', 'outcome of probability zero in a history', dict(rows=rows, history=hist)); ok = False; break
+                    rho = Pm @ rho @ Pm / pr
+                else:
+                    Gk = G.rand_herm(rng, n, nonid=True)
+                    st.rotate_by(impl.pauli(Gk))
+                    hist.append(('rotate_by', Gk))
+                    U = (np.eye(d) + 1j * O.dense(Gk)) / np.sqrt(2)
+                    rho = U.conj().T @ rho @ U
+            except Exception as e:
+                ctx.fail('StabilizerState.' + kind, 'implementation raised %r in a history' % e, dict(rows=rows, history=hist)); ok = False; break
+        if not ok or not hist:
+            continue
+        ctx.traces += 1
+        ctx.case(('expect-history', tuple(rows), str(hist)), any(h[0] == 'postselect' for h in hist), sample=dict(op='expect after a history', N=n, steps=[h[0] for h in hist]))
+        ctx.count('history:' + '+'.join(sorted(set(h[0] for h in hist))))
+        # every signed Pauli string (n <= 2) or a sample
+        strs = list(itertools.product('IXYZ', repeat=n))
+        if n > 2:
+            strs = rng.sample(strs, 24)
+        obs = [(s_, rng.choice([0, 2])) for s_ in strs]
+        try:
+            vals = [int(v) for v in st.expect(impl.plist(obs, n))]
+            for o_, v_ in zip(obs, vals):
+                w_ = float(np.real(np.trace(rho @ O.dense(o_))))
+                if abs(v_ - w_) > 1e-9:
+                    ctx.fail('StabilizerState.expect(PauliList)', 'after the history %s the expectation of %s is %s, Tr(rho P) = %s' % ([h[0] for h in hist], o_, v_, round(w_, 6)),
+                             dict(rows=rows, history=hist, P=o_)); ok = False; break
+            if ok and st.r == 0:
+                tot = 0.0
+                for bits in itertools.product((0, 1), repeat=n):
+                    pb = float(st.get_prob(np.array(bits)))
+                    idx_ = int(''.join(map(str, bits)), 2)
+                    wb = float(np.real(rho[idx_, idx_]))
+                    tot += pb
+                    if abs(pb - wb) > 1e-9:
+                        ctx.fail('StabilizerState.get_prob', 'after the history %s get_prob(%s) = %s, <b|rho|b> = %s' % ([h[0] for h in hist], bits, pb, round(wb, 6)), dict(rows=rows, history=hist)); ok = False; break
+                rows2, r2 = G.rand_tableau(rng, n)
+                ov = float(st.expect(impl.state(rows2, r2)))
+                wv = float(np.real(np.trace(rho @ O.dense_state(rows2[r2:n], n))))
+                if ok and abs(ov - wv) > 1e-9:
+                    ctx.fail('StabilizerState.expect(StabilizerState)', 'after the history %s the overlap is %s, Tr(rho sigma) = %s' % ([h[0] for h in hist], ov, round(wv, 6)), dict(rows=rows, history=hist, rows2=rows2, r2=r2))
+        except Exception as e:
+            ctx.fail('StabilizerState.expect', 'implementation raised %r after the history %s' % (e, [h[0] for h in hist]), dict(rows=rows, history=hist))
